@@ -74,10 +74,10 @@ def gen_request(rng, last=False):
 	r.host = host
 	form = rng.choice(['origin', 'origin', 'origin', 'absolute', 'asterisk' if not has_body else 'origin', 'authority' if not has_body else 'origin'])
 	if form == 'origin':
-		path = b''.join(b'/' + rng.choice([b'a', b'b', b'index.html', b'%7Euser', b'x%20y', b'caf%C3%A9', b';p', b'a=b', b'%2e%2ea']) for _ in range(rng.randrange(0, 4))) or b'/'
+		path = b''.join(b'/' + rng.choice([b'a', b'b', b'index.html', b'%7Euser', b'x%20y', b'caf%C3%A9', b';p', b'a=b', b'%2e%2ea', b'%e2%82%aC', b'%c3%Ab', b'x%2By', b'a+b']) for _ in range(rng.randrange(0, 4))) or b'/'
 		if rng.random() < 0.2 and path != b'/':
 			path += b'/'
-		q = rng.choice([b'', b'', b'?a=1', b'?a=1&b=2', b'?q=x%20y', b'?k'])
+		q = rng.choice([b'', b'', b'?a=1', b'?a=1&b=2', b'?q=x%20y', b'?k', b'?p=%2B1', b'?a=1%2b2&b=x+y', b'?k=%c3%Ab&l=%E2%82%aC', b'?a=1&b=2&a=3'])
 		r.target = path + q
 	elif form == 'absolute':
 		r.target = b'http://' + host + rng.choice([b'/', b'/p', b'/p/q?x=1'])
